@@ -211,6 +211,22 @@ def check_C02(chk):
         chk.unproved("correspondence: a send()'s call sequence differs from Frag.send on %d of %d sends (premise of Conc: first packet on the shared "
                      "socket carrying the dedicated receiver, follow-ups on the dedicated socket)" % (len(bad), ncmp),
                      {"input": it["case"], "observed_send": it["send_obs"], "model": F.model_view(it)})
+    # whole and exactly once also for messages that carry regions and endpoints next to multi-packet data (frag driver, oracle only)
+    cap2, f2 = F.ffs(4096), F.fs(4096)
+    mixc = [{"id": 800 + i, "len": L, "nsend": ns, "nrecv": nr, "nshm": nm, "level": lv}
+            for i, (L, ns, nr, nm, lv) in enumerate([(cap2 + 2 * f2 + 5, 0, 0, 1, "platform"), (cap2 + 2 * f2 + 5, 1, 1, 2, "typed"), (cap2 + 5 * f2, 0, 0, 1, "typed"),
+                                                      (cap2 + 1, 2, 0, 1, "platform"), (100, 1, 1, 3, "typed"), (cap2 + 3 * f2, 1, 0, 0, "bytes")])]
+    for c in mixc:
+        if c["level"] == "bytes":
+            c.update(nsend=0, nrecv=0, nshm=0)
+    for it in F.run_cases(bins["default"], 4096, mixc):
+        why = F.oracle(chk, it, True)
+        if why:
+            c = it["case"]
+            fails.append((None, why))
+            chk.failing_input("a message with regions / endpoints next to multi-packet data: " + why, {"input": c, "observed": it["rec"]},
+                              key="c02mix:len=%d ns=%d nr=%d nm=%d %s" % (c["len"], c["nsend"], c["nrecv"], c["nshm"], c["level"]))
+    cov["mixed_attachment_cases"] = len(mixc)
     # exactly once across a change of owner: the first owner takes ONE of several queued messages with a plain receive, then the receiver
     # travels on inside a message; the new owner gets every other message once, in order, then the later ones (wake driver, both builds)
     prng = random.Random(chk.seed + 19)
@@ -556,7 +572,12 @@ def vanish_oracle(it):
         return "harness died: %s" % it["stderr"][-300:]
     o = rec["out"]
     sc = c["scen"]
-    if sc == "carrier_fail":
+    if sc == "bytes_empty":
+        if o["send"] != "Err":
+            return "an empty payload sent on a raw-bytes channel whose receiver no longer exists reported success"
+        if o["transit"] != "Ok" or o["got"] != [0, 2]:
+            return "an empty payload sent to a raw-bytes receiver in transit: send %s, the receiver then yielded payload lengths %s instead of [0, 2]" % (o["transit"], o["got"])
+    elif sc == "carrier_fail":
         if not str(o["carrier"]).startswith("Err"):
             return "a send to a vanished receiver (carrying another channel's receiving end) reported %s" % o["carrier"]
         for k, what in (("small", "a small message"), ("big", "a multi-fragment message")):
@@ -652,7 +673,9 @@ def check_C09(chk):
     with concurrent.futures.ThreadPoolExecutor(max_workers=4) as ex:
         items = [it for r in ex.map(lambda j: run_vanish(bins["default"], j[0], j[1]), jobs) for it in r]
     # in-process transport: same scenarios except the forked ones
+    during.append({"id": next(nid), "scen": "bytes_empty", "len": 0})
     inp = [{"id": next(nid), "scen": sc, "len": L} for sc in ("transit", "carrier", "server_dropped", "carrier_fail") for L in (100, 100000)]
+    inp.append({"id": next(nid), "scen": "bytes_empty", "len": 0})
     recs, _, _, err = C.run_harness(bins["inprocess"], "vanish", ["id=%d scen=%s len=%d" % (c["id"], c["scen"], c["len"]) for c in inp], shim=False, timeout=120)
     by = {r["id"]: r for r in recs if r.get("kind") == "vanish"}
     items += [{"case": dict(c, S=0, flavour="inprocess"), "rec": by.get(c["id"]), "send_obs": None, "recv_obs": None, "stderr": err} for c in inp]
